@@ -341,13 +341,17 @@ class Registry:
         ctx = it.ctx
         sig = sf["recursive"]      # [param sorts..., result sort] as strings, e.g. ["Array[OptStr]","Int","Int"]
         key = "rec!" + name
-        if key in GLOBAL_SPEC_REC:
-            ctx.ufs[key] = GLOBAL_SPEC_REC[key]
+        if key in GLOBAL_SPEC_REC and key not in ctx.ufs:
+            # defined by an earlier task of this process: the z3 definition is process-global, the facts its body
+            # emitted (axiom instances of log / sqrt ...) belong to every context that uses the function
+            ctx.ufs[key], def_facts = GLOBAL_SPEC_REC[key]
+            for df in def_facts:
+                ctx.fact(df)
         if key not in ctx.ufs:
             sorts = [self.sig_sort(ctx, s) for s in sig]
             f = z3.RecFunction(name, *sorts)
             ctx.ufs[key] = f
-            GLOBAL_SPEC_REC[key] = f
+            n_facts0 = len(ctx.facts)
             # definition
             pnames = [a.arg for a in sf["node"].args.args]
             zargs = [z3.Const("%s!%s" % (name, p), s) for p, s in zip(pnames, sorts[:-1])]
@@ -371,6 +375,7 @@ class Registry:
                 del it.run.obligations[saved_obl:]
             body = self.to_sig(it, body, sig[-1])
             z3.RecAddDefinition(f, zargs, body)
+            GLOBAL_SPEC_REC[key] = (f, list(ctx.facts[n_facts0:]))
         f = ctx.ufs[key]
         zs = [self.to_sig(it, a, s) for a, s in zip(args, sig[:-1])]
         return self.unsig(it, f(*zs), sig[-1])
